@@ -194,6 +194,14 @@ theorem foreign_scramble (env : Env) (cfg : Cfg) (pods : List Pod) (hid : cfg.ro
   rw [patch_foreign env cfg pods _ (pointwise_map _ _ (foreignEq_scramble cfg hid) pods)]
   simp [okForeign]
 
+/-- **C12.v through the exported entry point**, for each of the three filters: relabelling
+    foreign pods (any `f` that keeps every pod `ForeignEq` to itself, e.g. `scramble`) changes
+    neither what the filter selects nor the patches. -/
+theorem top_foreign_not_counted (env : Env) (k : FilterKind) (cfg : Cfg) (f : Pod → Pod)
+    (hf : ∀ p, ForeignEq cfg p (f p)) (pods : List Pod) :
+    (patchTop env k cfg (pods.map f)).2 = (patchTop env k cfg pods).2 :=
+  patchTop_foreign env k cfg f hf pods
+
 /-- Pods of this release whose batch-id is not a batch of the plan (non-numeric, `0`, negative,
     beyond the last batch) consume no budget either: what is left for batch `b` after the first
     loop is exactly `max 0 (increment b − #labelled(id, b))`. -/
